@@ -118,9 +118,12 @@ def V(clause, feats, detail):
     raise Violation('C12', clause, feats, detail)
 
 
-def semiring_obj(name, dtype):
+def semiring_obj(name, dtype, implicit=False):
     import sys
     S = sys.modules['fggs.semirings']
+    if implicit and name != 'bool':
+        # built without a dtype: has to pick up the default dtype in force *now* (as bin/sum_product.py -d relies on)
+        return {'real': S.RealSemiring, 'log': S.LogSemiring, 'viterbi': S.ViterbiSemiring}[name]()
     return {'real': lambda: S.RealSemiring(dtype=dtype), 'log': lambda: S.LogSemiring(dtype=dtype),
             'viterbi': lambda: S.ViterbiSemiring(dtype=dtype), 'bool': lambda: S.BoolSemiring()}[name]()
 
